@@ -194,25 +194,29 @@ def run(ctx):
     specs = []
     for params in scenario_params(ctx.tier):
         spinning = "spinner" in params["asyncio"] or "spinner" in params["trio"]
+        # a payload adopted while the trigger fires: the submitter may be descheduled and
+        # resumed anywhere in the shutdown sequence (two deviations) - also in the quick tier
+        deep = params["asyncio"] == "late" and params["trio"] == "none"
         specs.append({
-            "module": "checks.c02", "params": params, "bound": bound,
+            "module": "checks.c02", "params": params, "bound": 2 if deep else bound,
             "opts": {"spin_time": 0.05 if spinning else 0.0, "time_horizon": 40.0,
                      "drain": 4.0, "max_points": 8000, "free_switch_cost": 1,
                      "time_jump_cost": None if ctx.quick else 1},
-            "budget": 3000 if ctx.quick else 40000,
+            "budget": (8000 if deep else 3000) if ctx.quick else 40000,
         })
     if not ctx.quick:
         specs += H.line_variants(
             specs, lambda p: p["blocked_thread"] and (
                 "late" in (p["asyncio"], p["trio"]) or "child" in p["asyncio"] + p["trio"]
                 or (p["asyncio"], p["trio"]) == ("sleeper+sync", "shield0.5")))
-    ctx.pmap(H.shard, specs, cost=lambda s: s["opts"].get("line_points", False))
+    ctx.pmap(H.shard, specs, cost=lambda s: 2 * bool(s["opts"].get("line_points")) + s["bound"])
     H.finish(
         ctx, specs,
         rule="trigger (failure per flavour, SIGINT at every explored point, shutdown(), "
              "MetaRunner.stop()) x asyncio population x trio population x blocked thread x every "
              "schedule within the deviation bound; non-trivial = a schedule with at least one deviation from the default one (all explored schedules are distinct)",
-        bounds={"deviation_bound": bound, "granularity": "synchronisation operations" + (
+        bounds={"deviation_bound": bound, "late_asyncio_adoption_bound": 2,
+                "granularity": "synchronisation operations" + (
             "" if ctx.quick else "; source lines of the runner package at bound 1 for the "
             "late / child / shielded populations"),
                 "sigint": "one delivery per execution; arrival point is a cost-%d choice"
